@@ -549,6 +549,29 @@ func (t *Termer) load(addr ssa.Value) string {
 	root, fpath := allocRoot(addr)
 	if root != nil && !escapesBeyondClosures(root) {
 		vals := t.storedAt(root, fpath)
+		if len(vals) == 1 && vals[0] == "partial" {
+			// struct built field by field: render as a composite
+			ty := root.Type().(*types.Pointer).Elem()
+			for _, fi := range fpath {
+				if st, ok := ty.Underlying().(*types.Struct); ok {
+					ty = st.Field(fi).Type()
+				}
+			}
+			if st, ok := ty.Underlying().(*types.Struct); ok && len(t.active) < 30 {
+				var parts []string
+				for i := 0; i < st.NumFields(); i++ {
+					sub := t.storedAt(root, append(append([]int{}, fpath...), i))
+					v := "zero"
+					if len(sub) == 1 {
+						v = sub[0]
+					} else if len(sub) > 1 {
+						v = "phi{" + strings.Join(sub, " | ") + "}"
+					}
+					parts = append(parts, st.Field(i).Name()+": "+v)
+				}
+				return TypeStr(ty) + "{" + strings.Join(parts, ", ") + "}"
+			}
+		}
 		if len(vals) == 1 {
 			return vals[0]
 		}
